@@ -2,13 +2,15 @@
 C37  Ring hash builds bounded deterministic rings and walks them per A61.   (PARTIAL)
 Property theorems only; helper lemmas are in GrpcProofs/Lemmas/Ring.lean and Lemmas/SortSearch.lean.
 
-PARTIAL because balancer/ringhash/ring.go computes in float64 and the theorems below are about the
+PARTIAL because balancer/ringhash/ring.go computes in float64 and most theorems below are about the
 SAME definition (`GrpcModel.Ring.newRing`, generic over `RingArith`) instantiated with exact
-rationals. The full statement "for the float64 code: min_ring_size ≤ |ring| ≤ max_ring_size" is
-FALSE for the unchanged tree (known finding F14: weights [353 525 364 915 538 257 795 474], min 4,
-max 8 → 9 entries); it is reproduced on the real newRing by the monitor, which evaluates the
-predicates below on the real ring with no tolerance. `Float` is opaque to the kernel, so the
-counterexample is a run of the real code, not a `decide`.
+rationals; the float instance is diffed bit-for-bit against the Go code and the predicates are
+monitored on the real ring with no tolerance. What IS proved for every arithmetic, float64
+included, is the upper size bound (`ring_size_le_max_any_arithmetic`): since /repo commit 9cc3b57
+the fill loop also stops at max_ring_size. Before that commit the float code produced
+max_ring_size + 1 entries (F14: weights [353 525 364 915 538 257 795 474], min 4, max 8 → 9), which
+the monitor reproduced on the real newRing. Still monitored only (known finding F14b): the ±1 shift
+of one entry between neighbouring endpoints when a float target lands just above an exact integer.
 
 Vocabulary (GrpcModel/Model/Ring.lean):
   Valid eps             weights ≥ 1, Σ weights < 2^32 (the uint32 weightSum does not wrap), eps ≠ []
@@ -44,6 +46,15 @@ theorem ring_size_bounds (hashOf : Nat → Nat → Nat) (eps : List Endpoint) (h
     have : (minSize : ℚ) ≤ (⌈(scaleOf eps minSize maxSize : ℚ)⌉₊ : ℚ) := le_trans hlo this
     exact_mod_cast this
   · exact Nat.ceil_le.mpr hhi
+
+/-- The upper bound holds for EVERY arithmetic the generic port is instantiated with — exact
+    rationals and IEEE float64 alike — and every input (no validity hypothesis): the fill loop
+    `for currentHashes < targetHashes && uint64(len(items)) < maxRingSize` cannot exceed it.
+    (Full-strength replacement of the F14 situation, repaired in /repo commit 9cc3b57.) -/
+theorem ring_size_le_max_any_arithmetic {α : Type} [RingArith α] (hashOf : Nat → Nat → Nat)
+    (eps : List Endpoint) (minSize maxSize : ℕ) :
+    (newRing (α := α) hashOf eps minSize maxSize).length ≤ maxSize :=
+  newRing_length_le hashOf eps minSize maxSize
 
 /-- With min_ring_size ≥ 1 (the config parser's default and lower bound) the ring is never empty,
     so `ring.pick` / `items[0]` cannot panic. -/
